@@ -13,6 +13,8 @@ import facts as F
 import graph as G
 import layout as L
 import mirutil as MU
+import re
+
 import absint
 import sx
 from common import Reporter
@@ -188,13 +190,60 @@ def run(tier):
         if r.pushed is None or r.pushed[0] != 'vec':
             okz = False
             continue
-        for s in r.pushed[2]:
-            if s[0] != 'items' or any(not (it[0] == 'int' and sx.is_const(it[1]) and sx.cval(it[1]) == 0) for it in s[1]):
-                okz = False
         rng = [e for e in r.events if e[0] == 'range-next']
-        if not rng or rng[0][1] != '0' or "ReserveData.0" not in rng[0][2]:
+        loop_form = bool(rng) and rng[0][1] == '0' and "ReserveData.0" in rng[0][2]
+        for s in r.pushed[2]:
+            if s[0] == 'items':
+                # one constant zero per step of the loop 0..n
+                if any(not (it[0] == 'int' and sx.is_const(it[1]) and sx.cval(it[1]) == 0) for it in s[1]) or not loop_form:
+                    okz = False
+            elif s[0] == 'blob' and s[1] == 'fill(0)':
+                # a zero fill whose length is the directive's operand (the fragment is only ever appended to: C06.fragment|append-only)
+                if "ReserveData.0" not in sx.show(s[2]) or len(sx.syms(s[2])) != 1 or sx.show(s[2]).count("ReserveData.0") != 1 or any(op_ in sx.show(s[2]) for op_ in (" + ", " - ", " * ", " / ")):
+                    okz = False
+            else:
+                okz = False
+        if not r.pushed[2] and not loop_form and not any(e[0] == 'resize-no-grow' for e in r.events):
             okz = False
-    rep.ob("C06.byte|zeros", okz, ".byte n emits zero bytes, one per step of the loop 0..n" if okz else ".byte n does not emit n zero bytes (loop 0..n pushing 0 not recognised)")
+    rep.ob("C06.byte|zeros", okz, ".byte n emits n zero bytes" if okz else ".byte n does not emit exactly n zero bytes (neither a loop 0..n pushing 0 nor a zero fill of length n)")
+    # what pass 2 has emitted into the fragment is never altered again: the fragment is only appended to
+    k2 = "builder::pass2::pass_2_internal"
+    b2 = P.body.get(k2)
+    if b2 is not None:
+        ch2 = MU.Chaser(b2)
+        frag = [i for i, l in enumerate(b2["locals"]) if l["name"] == "code_fragment"]
+        # the vector that is returned on success
+        retv = set()
+        for bl in b2["blocks"]:
+            for st in bl["stmts"]:
+                if st["k"] == "assign" and st["place"]["local"] == 0 and st["rv"]["k"] == "agg" and st["rv"]["kind"].get("vname") == "Ok" and st["rv"]["ops"]:
+                    retv.add(ch2.root(st["rv"]["ops"][0], through_calls=False)[0])
+        bad = []
+        nmut = 0
+        for bb, t, name, tg in P.call_sites(k2):
+            full, rp = MU.callee_names(t)
+            m = re.match(r"^std::vec::Vec::<T, A>::(\w+)$|^<std::vec::Vec<T, A> as std::iter::Extend<.*>>::(extend)$", rp)
+            if not m or not t["args"]:
+                continue
+            if ch2.root(t["args"][0], through_calls=False)[0] not in retv:
+                continue
+            meth = m.group(1) or m.group(2)
+            if meth in ("len", "is_empty", "capacity", "as_slice", "iter", "reserve", "first", "last"):
+                continue
+            nmut += 1
+            if meth in ("push", "extend", "extend_from_slice", "append"):
+                continue
+            if meth == "resize" and len(t["args"]) > 1:
+                locs, consts, calls, places = MU.backward_slice(b2, t["args"][1:2])
+                if any(MU.callee_names(c)[1] == "std::vec::Vec::<T, A>::len" and ch2.root(c["args"][0], through_calls=False)[0] in retv for c in calls):
+                    continue           # grows relative to the present length
+            bad.append(meth)
+        rep.ob("C06.fragment|append-only", not bad and nmut >= 3,
+               "pass 2 only ever appends to the fragment it returns (%d appending calls): bytes emitted for earlier items are never altered" % nmut if not bad and nmut >= 3 else
+               "pass 2 applies %s to the fragment it returns: bytes already emitted for earlier items of the segment can be cut off or overwritten" % sorted(set(bad)) if bad else
+               "only %d appending calls on the fragment found" % nmut)
+    else:
+        rep.unprovable("C06.fragment|append-only", "pass_2_internal not found")
     for dd in RANGES:
         rs = [r for r in rows2 if r.item == "Data" and r.dd == dd and r.exit == "loop"]
         want = L.GETDATA[dd].rsplit("::", 1)[-1]
